@@ -2,6 +2,8 @@ import CMacVerif.Lemmas.AtomicsPool
 import CMacVerif.Lemmas.AtomicsMem
 import CMacVerif.Lemmas.AtomicsQueue
 import CMacVerif.Lemmas.AtomicsCtr
+import CMacVerif.Lemmas.AtomicsRun
+import CMacVerif.Lemmas.AtomicsHydro
 /-!
 # C08 — shared scheduler containers never give one slot or task to two owners
 
@@ -54,7 +56,7 @@ theorem lock_held_once (cfg : Cfg) (progs : List (List Cmd)) (sched : List Nat) 
 
 /-- non-vacuity: two threads race for lock 0 with `lock`; one gets it, the other one spins -/
 example :
-    let s := run ⟨1, 200, fun _ => (none, none)⟩ (init [[.lock 0], [.lock 0]]) [0, 1, 0, 1, 1]
+    let s := run { size := 1, cap := 200, deps := fun _ => (none, none) } (init [[.lock 0], [.lock 0]]) [0, 1, 0, 1, 1]
     s.mem.locks (.dep 0) = true ∧ (s.threads.map (·.held)) = [[0], []] := by decide
 
 /-! ## Slot pool (ThreadSafeVector, MemorySpace) -/
@@ -101,7 +103,7 @@ theorem owned_disjoint (cfg : Cfg) (progs : List (List Cmd)) (sched : List Nat) 
 /-- non-vacuity (pool of size 2 that becomes full and wraps): thread 0 takes both slots, frees
 slot 0; thread 1, preempted between its flag CAS and its counter increment, gets slot 0 -/
 example :
-    let s := run ⟨2, 200, fun _ => (none, none)⟩ (init [[.get, .get, .free 1], [.get]])
+    let s := run { size := 2, cap := 200, deps := fun _ => (none, none) } (init [[.get, .get, .free 1], [.get]])
       ([0,0,0,0,0,0, 0,0,0,0,0,0, 1,1,1,1, 0,0,0, 1,1, 1,1,1,1])
     (s.threads.map (·.owned)) = [[1], [0]] ∧ s.mem.cur = 5 ∧ s.mem.taken = 2 := by decide
 
@@ -201,7 +203,7 @@ theorem counter_linear_n_m (cfg : Cfg) (progs : List (List Cmd)) (sched : List N
 /-- non-vacuity: 2 increments and 1 decrement from two threads, plus two racing `LockFree::add`s
 (one compare-exchange fails and is retried) -/
 example :
-    let s := run ⟨1, 200, fun _ => (none, none)⟩
+    let s := run { size := 1, cap := 200, deps := fun _ => (none, none) }
       (init [[.inc 0, .lfAdd 1 5, .inc 0], [.dec 0, .lfAdd 1 7]]) [0,0,1,1,0,1,0,1,1,1,0,0,0,0]
     s.mem.ctr 0 = 1 ∧ s.mem.ctr 1 = 12 ∧ s.threads.all Thread.finished = true := by decide
 
@@ -243,7 +245,7 @@ theorem pop_unique (cfg : Cfg) (progs : List (List Cmd)) (sched : List Nat) (q x
 /-- non-vacuity: two threads add to and pop from one queue; task 0 needs locks 0 and 1, task 1
 needs lock 1: after thread 1 popped task 1, thread 0's pop has to roll back its first lock -/
 example :
-    let s := run ⟨1, 200, fun t => if t = 0 then (some 0, some 1) else (some 1, none)⟩
+    let s := run { size := 1, cap := 200, deps := fun t => if t = 0 then (some 0, some 1) else (some 1, none) }
       (init [[.addTask 0 0, .addTask 0 1, .getTask 0], [.getTask 0]])
       [0,0,0,0,0,0,0,0, 1,1,1,1,1,1,1,1, 0,0,0,0,0,0,0,0,0,0]
     (s.threads.map (·.popLog)) = [[], [(0, 1)]] ∧ s.mem.items 0 = [0] ∧
@@ -329,7 +331,7 @@ theorem pop_available (cfg : Cfg) (s : State) (tid q : Nat) (th : Thread) (x : N
 
 /-- non-vacuity of `pop_available`: the top entry needs a busy lock, the entry below is free -/
 example :
-    let cfg : Cfg := ⟨1, 200, fun t => if t = 0 then (some 0, none) else (some 1, some 0)⟩
+    let cfg : Cfg := { size := 1, cap := 200, deps := fun t => if t = 0 then (some 0, none) else (some 1, some 0) }
     let s : State := { mem := { items := fun _ => [0, 1], locks := fun L => L = .dep 1 || L = .queue 0 },
                        threads := [{ pc := .popInit 0 }] }
     (run cfg s (List.replicate 8 0)).threads.map (·.pc) = [.popUnlock 0 (some 0)] := by decide
@@ -376,7 +378,7 @@ theorem wraparound (cfg : Cfg) (s : State) (u j : Nat) (thu : Thread) (r : Optio
 
 /-- non-vacuity of `wraparound`: size 3, cursor 7 (wrapped twice), only slot 0 free -/
 example :
-    let cfg : Cfg := ⟨3, 200, fun _ => (none, none)⟩
+    let cfg : Cfg := { size := 3, cap := 200, deps := fun _ => (none, none) }
     let s : State := { mem := { cur := 7, flags := fun i => i != 0 }, threads := [{ pc := .getInc none }] }
     (run cfg s (List.replicate 6 0)).threads.map (·.pc) = [.getCount 0 none] := by decide
 
@@ -452,9 +454,202 @@ example : ∀ p ∈ [[Cmd.getSafe, .addPhotons 0 150, .addPhotons 0 100, .freeBu
 
 /-- non-vacuity: 150 + 100 packets: the target fills up (200), 50 go to a fresh buffer -/
 example :
-    let s := run ⟨3, 200, fun _ => (none, none)⟩
+    let s := run { size := 3, cap := 200, deps := fun _ => (none, none) }
       (init [[.getSafe, .addPhotons 0 150, .addPhotons 0 100]]) (List.replicate 19 0)
     (List.range 3).map s.mem.count = [200, 50, 0] ∧ s.threads.map (·.owned) = [[1, 0]] ∧
     s.threads.map (·.lost) = [0] := by decide
+
+/-! ## Task-level atomicity (the assumption of C07's `Worker` model and of C01)
+
+`running cfg s` = all tasks some thread *runs* in state `s`: from the atomic operation that took
+the task's last lock (inside `get_task` / `try_get_task`, or a direct `lock_dependency`) up to the
+first unlock of `unlock_dependency`.  `graphOf cfg` is the lock part of `Worker.Graph`
+(`lockset` = `_dependency[0..1]` after the duplicate rule of `set_extra_dependency`). -/
+
+open Spec
+
+/-- **running_tasks_conflict_free**: at every moment of every execution, any two running tasks
+(of different threads, or of one thread that popped several) have disjoint declared lock sets —
+exactly the guard of `Worker.step … (.acquire t)`. -/
+theorem running_tasks_conflict_free (cfg : Cfg) (progs : List (List Cmd)) (sched : List Nat) :
+    (running cfg (run cfg (init progs) sched)).Pairwise
+      (fun a b => Worker.conflicts (graphOf cfg) a b = false) := by
+  simp only [conflicts_graphOf]
+  apply pairwise_of_hsum
+  intro L
+  unfold running
+  rw [hsum_running]
+  exact runHold_sum_le_one cfg _ (lockInv_run cfg progs sched) L
+
+/-- sum form: every lock is declared by at most one running task, and the thread that runs a
+task holds all the locks the task declares -/
+theorem running_holds_locks (cfg : Cfg) (progs : List (List Cmd)) (sched : List Nat) (L : LockId) :
+    sumT (runHold cfg L) (run cfg (init progs) sched).threads ≤ 1 ∧
+    ∀ th ∈ (run cfg (init progs) sched).threads, runHold cfg L th ≤ holdL cfg L th :=
+  ⟨runHold_sum_le_one cfg _ (lockInv_run cfg progs sched) L, fun th _ => runHold_le_holdL cfg L th⟩
+
+/-- nothing runs and nothing is queued initially -/
+theorem abs_init (cfg : Cfg) (progs : List (List Cmd)) :
+    (∀ x, (abs cfg (init progs)).run x = 0) ∧ (∀ q x, (abs cfg (init progs)).queue q x = 0) := by
+  refine ⟨fun x => ?_, fun q x => ?_⟩
+  · show sumT (runW cfg x) (init progs).threads = 0
+    apply sumT_eq_zero
+    intro th hth
+    simp only [init, List.mem_map] at hth
+    obtain ⟨p, _, rfl⟩ := hth
+    simp [runW, runList, pcRunning]
+  · show ((init progs).mem.items q).count x - absK (init progs) q x = 0
+    simp [init]
+
+/-- **pop_is_atomic_acquire**, one step: in every reachable state every transition of every
+thread is either a stuttering step of the abstract lock-level specification (`Model/AtomicsSpec`)
+or the abstract transition of its label, *enabled* in the abstraction of the current state.  The
+label `acquire q t` sits on the atomic operation with which a pop takes the LAST lock of `t`;
+enabledness means: `t` is (still) in the abstract queue `q` — so a task is acquired at most once
+per add — and no running task conflicts with `t`. -/
+theorem pop_is_atomic_acquire_step (cfg : Cfg) (progs : List (List Cmd)) (sched : List Nat)
+    (tid : Nat) (th : Thread) (hth : (run cfg (init progs) sched).threads[tid]? = some th) :
+    match lab cfg (run cfg (init progs) sched).mem th with
+    | none => Same (abs cfg (run cfg (init progs) sched)) (abs cfg (step cfg (run cfg (init progs) sched) tid))
+    | some l => Step cfg (abs cfg (run cfg (init progs) sched)) l (abs cfg (step cfg (run cfg (init progs) sched) tid)) := by
+  have hstep : run cfg (init progs) (sched ++ [tid]) = step cfg (run cfg (init progs) sched) tid := by
+    rw [run_append]; rfl
+  exact sim_step cfg _ tid th (lockInv_run cfg progs sched) (stabInv_run cfg progs sched)
+    (by rw [← hstep]; exact lockInv_run cfg progs _) (by rw [← hstep]; exact stabInv_run cfg progs _) hth
+
+/-- **pop_is_atomic_acquire** (refinement): the projection of every execution — `acquire t` at
+the linearisation point of each successful pop, `finish t` at the first unlock of
+`unlock_dependency(t)`, `add q t` at the body of `add_task` — is an execution of the abstract
+specification from the empty state to the abstraction of the state reached. -/
+theorem pop_is_atomic_acquire (cfg : Cfg) (progs : List (List Cmd)) (sched : List Nat) :
+    Exec cfg (abs cfg (init progs)) (trace cfg (init progs) sched) (abs cfg (run cfg (init progs) sched)) :=
+  refines_from cfg progs sched []
+
+/-- (2a) the guard, in `Worker` terms: at a linearisation point of a pop of `t`, `t` conflicts
+with no task that is running -/
+theorem acquire_guard (cfg : Cfg) (progs : List (List Cmd)) (sched : List Nat)
+    (tid q t : Nat) (th : Thread) (hth : (run cfg (init progs) sched).threads[tid]? = some th)
+    (hl : lab cfg (run cfg (init progs) sched).mem th = some (.acquire q t)) :
+    ∀ u ∈ running cfg (run cfg (init progs) sched), Worker.conflicts (graphOf cfg) t u = false := by
+  have h := pop_is_atomic_acquire_step cfg progs sched tid th hth
+  rw [hl] at h
+  intro u hu
+  rw [conflicts_graphOf]
+  apply h.2.1 u
+  show 1 ≤ sumT (runW cfg u) (run cfg (init progs) sched).threads
+  unfold running at hu
+  obtain ⟨thk, hk, hmem⟩ := List.mem_flatMap.mp hu
+  obtain ⟨k, hklt, hke⟩ := List.mem_iff_getElem.mp hk
+  have := le_sumT (runW cfg u) (run cfg (init progs) sched).threads k thk (by rw [List.getElem?_eq_getElem hklt, hke])
+  have : 1 ≤ runW cfg u thk := List.count_pos_iff.mpr hmem
+  omega
+
+/-- (2b) at most once: at a linearisation point of a pop of `t` from queue `q`, `t` is in the
+abstract queue (queued and not claimed by another pop), and the step takes one occurrence out -/
+theorem acquire_at_most_once (cfg : Cfg) (progs : List (List Cmd)) (sched : List Nat)
+    (tid q t : Nat) (th : Thread) (hth : (run cfg (init progs) sched).threads[tid]? = some th)
+    (hl : lab cfg (run cfg (init progs) sched).mem th = some (.acquire q t)) :
+    1 ≤ absQueue (run cfg (init progs) sched) q t ∧
+    absQueue (step cfg (run cfg (init progs) sched) tid) q t + 1 = absQueue (run cfg (init progs) sched) q t := by
+  have h := pop_is_atomic_acquire_step cfg progs sched tid th hth
+  rw [hl] at h
+  refine ⟨h.1, ?_⟩
+  have := h.2.2.2 q t
+  simpa [abs, one] using this
+
+/-- **failed_pop_changes_nothing** (interleaved form): a transition without a label — in
+particular every transition of a pop that ends with NO_TASK: lock attempts, roll-backs, skipped
+entries — is a stuttering step of the abstract specification; the only labelled transition inside
+a pop leads to the removal of the entry (a pop that returns a task). -/
+theorem failed_pop_is_stutter (cfg : Cfg) (progs : List (List Cmd)) (sched : List Nat)
+    (tid : Nat) (th : Thread) (hth : (run cfg (init progs) sched).threads[tid]? = some th) :
+    (lab cfg (run cfg (init progs) sched).mem th = none →
+      Same (abs cfg (run cfg (init progs) sched)) (abs cfg (step cfg (run cfg (init progs) sched) tid))) ∧
+    (∀ q t, lab cfg (run cfg (init progs) sched).mem th = some (.acquire q t) →
+      ∃ j, (exec cfg (run cfg (init progs) sched).mem th).2.pc = .popRemove q j t) := by
+  refine ⟨fun hn => ?_, fun q t h => acquire_leads_to_remove cfg _ th q t h⟩
+  have h := pop_is_atomic_acquire_step cfg progs sched tid th hth
+  rw [hn] at h
+  exact h
+
+/-- **failed_pop_changes_nothing** (memory form): a `get_task` / `try_get_task` that finds the
+queue lock free and is not interfered with terminates, and if it returns NO_TASK, every lock
+flag, the content of every queue and the caller's own locks and tasks are exactly as it found
+them (each failed two-lock attempt was rolled back). -/
+theorem failed_pop_changes_nothing (cfg : Cfg) (s : State) (tid q : Nat) (b : Bool) (th : Thread)
+    (hth : s.threads[tid]? = some th) (hpc : th.pc = .popLock q b)
+    (hfree : s.mem.locks (.queue q) = false) :
+    Solo cfg tid s (fun s' => ∃ th' r, s'.threads[tid]? = some th' ∧ th'.pc = .idle ∧
+      th'.res = .popped q r :: th.res ∧
+      (r = none → (∀ L, s'.mem.locks L = s.mem.locks L) ∧ s'.mem.items = s.mem.items ∧
+        th'.tasks = th.tasks ∧ th'.held = th.held)) :=
+  pop_outcome cfg s tid q b th hth hpc hfree
+
+/-- non-vacuity: both queued tasks need lock 1, which is busy; task 1 also needs lock 0 (taken,
+then rolled back): the pop returns NO_TASK and leaves everything as it was -/
+example :
+    let cfg : Cfg := { size := 1, cap := 200, deps := fun t => if t = 0 then (some 1, none) else (some 0, some 1) }
+    let s : State := { mem := { items := fun _ => [0, 1], locks := fun L => L = .dep 1 },
+                       threads := [{ pc := .popLock 0 true }] }
+    let s' := run cfg s (List.replicate 13 0)
+    s'.threads.map (·.res) = [[.popped 0 none]] ∧ s'.mem.items 0 = [0, 1] ∧
+    (s'.mem.locks (.dep 0), s'.mem.locks (.dep 1), s'.mem.locks (.queue 0)) = (false, true, false) := by decide
+
+/-! ## Counter protocol of the hydro worker loop -/
+
+/-- **hydro_counter**: threads whose calls put tasks into queues only through the initial loop
+(`seed`) and the release of children (`release`), for every task graph (`cfg.children`,
+`cfg.queueOf`), number of threads and schedule: `number_of_tasks` (plus the increments of the
+initial loop that are still to come) is at least the number of queued tasks plus the number of
+running tasks. -/
+theorem hydro_counter (cfg : Cfg) (hq : ∀ c, cfg.queueOf c < cfg.nq) (progs : List (List Cmd))
+    (hprog : ∀ p ∈ progs, ∀ c ∈ p, HydroCmd cfg c) (sched : List Nat) :
+    let s := run cfg (init progs) sched
+    (qlen s.mem cfg.nq : Int) + (sumT runCount s.threads : Int)
+      ≤ s.mem.num + (sumT (fun th => debtSeed th.pc) s.threads : Int) :=
+  hydro_counter_bound cfg _ (hydroInv_run cfg hq progs hprog sched)
+
+/-- … hence, once the initial loop is over, **the counter is never 0 while a task is queued or
+running**: if `number_of_tasks = 0` then every queue is empty and no thread holds a popped task
+or is inside `unlock_dependency`. -/
+theorem hydro_counter_zero (cfg : Cfg) (hq : ∀ c, cfg.queueOf c < cfg.nq) (progs : List (List Cmd))
+    (hprog : ∀ p ∈ progs, ∀ c ∈ p, HydroCmd cfg c) (sched : List Nat)
+    (hseed : ∀ th ∈ (run cfg (init progs) sched).threads, debtSeed th.pc = 0)
+    (hzero : (run cfg (init progs) sched).mem.num = 0) :
+    (∀ q, q < cfg.nq → (run cfg (init progs) sched).mem.items q = []) ∧
+    (∀ th ∈ (run cfg (init progs) sched).threads, th.tasks = [] ∧ unlockingPC th.pc = 0) := by
+  have h := hydro_counter cfg hq progs hprog sched
+  simp only at h
+  rw [sumT_eq_zero (fun th => debtSeed th.pc) _ hseed, hzero] at h
+  have hq0 : qlen (run cfg (init progs) sched).mem cfg.nq = 0 := by omega
+  have hr0 : sumT runCount (run cfg (init progs) sched).threads = 0 := by omega
+  refine ⟨fun q hqlt => ?_, fun th hth => ?_⟩
+  · have := le_sumN (fun q => ((run cfg (init progs) sched).mem.items q).length) cfg.nq q hqlt
+    unfold qlen at hq0
+    exact List.length_eq_zero_iff.mp (by omega)
+  · have := sumT_zero_elim runCount _ hr0 th hth
+    unfold runCount at this
+    exact ⟨List.length_eq_zero_iff.mp (by omega), by omega⟩
+
+/-- the exact accounting behind `hydro_counter` -/
+theorem hydro_counter_exact (cfg : Cfg) (hq : ∀ c, cfg.queueOf c < cfg.nq) (progs : List (List Cmd))
+    (hprog : ∀ p ∈ progs, ∀ c ∈ p, HydroCmd cfg c) (sched : List Nat) :
+    let s := run cfg (init progs) sched
+    s.mem.num + (sumT (fun th => debtSeed th.pc) s.threads : Int) + (sumT (fun th => debtRel th.pc) s.threads : Int)
+      = (qlen s.mem cfg.nq : Int) + (sumT live s.threads : Int) :=
+  (hydroInv_run cfg hq progs hprog sched).2
+
+/-- non-vacuity (and the transient the task-level model does not see): parent 0 with children
+1 and 2; thread 0 pops 0, releases child 1 (`add_task` done, `pre_increment` pending); thread 1 pops
+child 1, finishes and retires it: `number_of_tasks` reads 0 although thread 0 still has child 2 to
+release — no task is queued or running at that moment, as the theorem says. -/
+example :
+    let cfg : Cfg := { size := 1, cap := 200, deps := fun _ => (none, none),
+                       children := fun t => if t = 0 then [1, 2] else [], nq := 1 }
+    let s := run cfg (init [[.setUnf 1 1, .setUnf 2 1, .seed 0 0, .getTask 0, .unlockTask 0, .release],
+                            [.getTask 0, .unlockTask 0, .release]])
+      (List.replicate 23 0 ++ List.replicate 11 1)
+    s.mem.num = 0 ∧ s.mem.items 0 = [] ∧ s.threads.map (·.tasks) = [[], []] ∧
+    (s.threads.map (·.pc)).head? = some (.numInc 0 1 (.rel 0 [2])) := by decide
 
 end CMacVerif.Atomics
